@@ -38,6 +38,12 @@
 #define BODY_REF_MAXSTR 32      /* bound of loops over string content (>= buffer size of the harness) */
 #endif
 
+/* Optional output of the reference decoder: the same body in the OTHER byte order ("the endianness flag ... all
+ * multi-byte numbers are in that order": a fixed-width field is byte-reversed, everything else is copied).  When
+ * body_ref_out is non-NULL, body_ref_valid() writes the converted image of a well-formed body there. */
+static unsigned char *body_ref_out;
+static void body_ref_emit_rev (const unsigned char *b, int pos, int width)
+{ int k; if (!body_ref_out) return; for (k = 0; k < 8; k++) { if (k >= width) break; body_ref_out[pos + k] = b[pos + width - 1 - k]; } }
 static unsigned body_ref_u32 (const unsigned char *b, int pos, int le)
 {
   return le ? ((unsigned) b[pos] | ((unsigned) b[pos + 1] << 8) | ((unsigned) b[pos + 2] << 16) | ((unsigned) b[pos + 3] << 24))
@@ -123,14 +129,14 @@ static int body_ref_value (const char *sig, int si, const unsigned char *b, int 
   switch (c)
     {
     case 'y': if (*pos + 1 > len) return 0; *pos += 1; return 1;
-    case 'n': case 'q': if (*pos + 2 > len) return 0; *pos += 2; return 1;
-    case 'i': case 'u': case 'h': if (*pos + 4 > len) return 0; *pos += 4; return 1;
-    case 'x': case 't': case 'd': if (*pos + 8 > len) return 0; *pos += 8; return 1;
+    case 'n': case 'q': if (*pos + 2 > len) return 0; body_ref_emit_rev (b, *pos, 2); *pos += 2; return 1;
+    case 'i': case 'u': case 'h': if (*pos + 4 > len) return 0; body_ref_emit_rev (b, *pos, 4); *pos += 4; return 1;
+    case 'x': case 't': case 'd': if (*pos + 8 > len) return 0; body_ref_emit_rev (b, *pos, 8); *pos += 8; return 1;
     case 'b':
-      { unsigned v; if (*pos + 4 > len) return 0; v = body_ref_u32 (b, *pos, le); *pos += 4; return v == 0 || v == 1; }
+      { unsigned v; if (*pos + 4 > len) return 0; v = body_ref_u32 (b, *pos, le); body_ref_emit_rev (b, *pos, 4); *pos += 4; return v == 0 || v == 1; }
     case 's': case 'o':
       {
-        unsigned n; if (*pos + 4 > len) return 0; n = body_ref_u32 (b, *pos, le); *pos += 4;
+        unsigned n; if (*pos + 4 > len) return 0; n = body_ref_u32 (b, *pos, le); body_ref_emit_rev (b, *pos, 4); *pos += 4;
         if (n > (unsigned) (len - *pos) || n + 1 > (unsigned) (len - *pos)) return 0;
         if (c == 's' ? !body_ref_utf8 (b + *pos, (int) n) : !body_ref_path (b + *pos, (int) n)) return 0;
         if (b[*pos + (int) n] != 0) return 0;
@@ -147,7 +153,7 @@ static int body_ref_value (const char *sig, int si, const unsigned char *b, int 
     case 'a':
       {
         unsigned n; int ealign, aend, k;
-        if (*pos + 4 > len) return 0; n = body_ref_u32 (b, *pos, le); *pos += 4;
+        if (*pos + 4 > len) return 0; n = body_ref_u32 (b, *pos, le); body_ref_emit_rev (b, *pos, 4); *pos += 4;
         if (n > 67108864u) return 0;
         ealign = body_ref_alignment (sig[si + 1]);
         if (!body_ref_pad (b, len, pos, ealign)) return 0;
